@@ -358,7 +358,10 @@ def shard_main(argv):
     rc = 0
     import faulthandler
 
-    faulthandler.dump_traceback_later(float(os.environ.get("VF_STACK_AFTER", "240")), repeat=False, file=sys.stderr)
+    # debugging aid only (VF_STACK_AFTER=<seconds>): dumping other threads' frames from the watchdog thread is racy
+    # and has crashed long thorough shards (rc=-11 right after the "Timeout" header), so it is off by default
+    if os.environ.get("VF_STACK_AFTER"):
+        faulthandler.dump_traceback_later(float(os.environ["VF_STACK_AFTER"]), repeat=False, file=sys.stderr)
     try:
         if "replay" in spec:
             rec.strict = False
